@@ -77,18 +77,24 @@ func (w *WatcherHub) DeleteWatcher(sub chan []*proto.Event, lock bool) {
 // Stream push events to watchers.
 func (w *WatcherHub) Stream(input chan []*proto.Event) {
 	for item := range input {
+		var slowSubs []chan []*proto.Event
 		w.RLock()
 		for sub := range w.subs {
 			select {
 			case sub <- item:
 			default:
-				// drop slow consumer
-				klog.InfoS("drop slow consumer", "chan", sub, "bufSize", watchBuffer)
-				w.metricCli.EmitCounter("drop.slow.watcher", 1)
-				go w.DeleteWatcher(sub, true)
+				slowSubs = append(slowSubs, sub)
 			}
 		}
 		w.RUnlock()
+
+		// drop slow consumers before the next item is pushed,
+		// so that no watcher goes on after an item it has missed
+		for _, sub := range slowSubs {
+			klog.InfoS("drop slow consumer", "chan", sub, "bufSize", watchBuffer)
+			w.metricCli.EmitCounter("drop.slow.watcher", 1)
+			w.DeleteWatcher(sub, true)
+		}
 	}
 
 	w.Lock()
